@@ -492,6 +492,32 @@ func genM1(r *rand.Rand, p Profile, id string) Case {
 			muts++
 			obs(r, g, t, false, &ops)
 			continue
+		case "pintest":
+			if len(t.versions) == 0 {
+				continue
+			}
+			ops = append(ops, []string{"pintest", i64(t.versions[r.Intn(len(t.versions))])})
+			// the refused deletions must leave the version bookkeeping alone
+			bookkeeping(r, g, t, &ops)
+			continue
+		case "faultreopen":
+			// an open that has to build the index (commits made with the index disabled), and a plain one
+			if t.dirty {
+				continue
+			}
+			ops = append(ops, []string{"reopen", "fast=false"}, []string{"set", hx(g.key()), hx([]byte("y"))}, []string{"save"})
+			nv := t.latest() + 1
+			if t.latest() == 0 && iv > 0 {
+				nv = iv
+			}
+			if !t.has(nv) {
+				t.versions = append(t.versions, nv)
+			}
+			t.cur = t.latest()
+			ops = append(ops, []string{"fault", "reopen", "fast=true"}, []string{"fault", "reopen", "fast=true"})
+			t.dirty = false
+			muts++
+			continue
 		case "failedopen":
 			// a new tree object whose first LoadVersion fails (no such version) is used for reads of
 			// the retained versions, then replaced by a properly opened one
